@@ -21,7 +21,7 @@ from scapy.layers.bluetooth import ATT_Error_Response, ATT_Exchange_MTU_Request,
     ATT_Handle
 from scapy.packet import bind_layers, Packet
 
-from whad.ble.stack.att.constants import BleAttOpcode, SecurityProperty, SecurityAccess
+from whad.ble.stack.att.constants import BleAttOpcode, BleAttErrorCode, SecurityProperty, SecurityAccess
 
 from whad.common.stack import Layer, ContextualLayer, alias, instance
 
@@ -38,6 +38,16 @@ from whad.ble.stack.gatt.message import GattExecuteWriteRequest, GattExecuteWrit
 from whad.scapy.layers.bluetooth import ATT_Handle_Value_Confirmation
 
 logger = logging.getLogger(__name__)
+
+# Opcodes of the ATT requests this layer knows
+ATT_REQUEST_OPCODES = (
+    BleAttOpcode.EXCHANGE_MTU_REQUEST, BleAttOpcode.FIND_INFO_REQUEST,
+    BleAttOpcode.FIND_BY_TYPE_VALUE_REQUEST, BleAttOpcode.READ_BY_TYPE_REQUEST,
+    BleAttOpcode.READ_REQUEST, BleAttOpcode.READ_BLOB_REQUEST,
+    BleAttOpcode.READ_MULTIPLE_REQUEST, BleAttOpcode.READ_BY_GROUP_TYPE_REQUEST,
+    BleAttOpcode.WRITE_REQUEST, BleAttOpcode.PREPARE_WRITE_REQUEST,
+    BleAttOpcode.EXECUTE_WRITE_REQUEST
+)
 
 
 @alias('att')
@@ -165,6 +175,16 @@ class ATTLayer(Layer):
         # Execute write request
         elif att_pkt.opcode == BleAttOpcode.EXECUTE_WRITE_RESPONSE:
             self.on_execute_write_response(None)
+        # Anything else that is a request (even opcode with the command flag
+        # cleared, Handle Value Confirmation excepted) must be answered: unknown
+        # requests are not supported, known ones reach this point when their
+        # parameters could not be parsed. Unknown commands, responses,
+        # notifications and indications are ignored.
+        elif (att_pkt.opcode & 0x41) == 0 and att_pkt.opcode != BleAttOpcode.HANDLE_VALUE_CONFIRMATION:
+            if att_pkt.opcode in ATT_REQUEST_OPCODES:
+                self.error_response(att_pkt.opcode, 0, BleAttErrorCode.INVALID_PDU)
+            else:
+                self.error_response(att_pkt.opcode, 0, BleAttErrorCode.REQUEST_NOT_SUPP)
 
     def on_error_response(self, error_resp: ATT_Error_Response):
         """Process a generic ATT error response.
